@@ -25,6 +25,16 @@ def opt_suffix(opts):
     return (" ;; " + " ".join(opts)) if opts else ""
 
 
+
+def alias_probe(b, rng, operand, result, p=0.2):
+    """write-after-operation: mutate an operand in place, the earlier result must not move (and vice versa)"""
+    if operand.startswith("#") or rng.random() >= p:
+        return
+    victim, witness = (operand, result) if rng.random() < 0.6 else (result, operand)
+    b.add(f"layer {victim} {fs(rng.choice([None, 1, 3]))} {fs(rng.choice([None, 5, 7]))} {rng.choice([1, -2, 5])}")
+    b.add(f"frame {witness}", focus=True)
+
+
 # ----------------------------------------------------------------------------- C02 layering
 def layer_stmt(rng, r, s, e, v, vector=None):
     if vector is None:
@@ -63,6 +73,8 @@ def gen_c02(rng, tier, n_random, n_exh):
         for c in (c1, c2):
             b.add(layer_stmt(rng, r, *c), focus=True)
             b.observe(r)
+            if rng.random() < 0.5:
+                b.add(f"touch {r} {rng.choice(['values', 'deltas', 'both', 'stat'])}")
         b.tags.update(kind="exh2")
         progs.append(b.program())
     # random histories on all kinds of receivers
@@ -90,9 +102,14 @@ def gen_c02(rng, tier, n_random, n_exh):
             b.add(f"bin {r} {rng.choice(['add', 'mul', 'lt', 'or'])} {a} {c}")
         b.note_points(range(0, 11, 2))
         for _ in range(rng.randint(1, 4)):
+            if rng.random() < 0.35:
+                # query-mutate-query: materialise one or both internal forms between the calls
+                b.add(f"touch {r} {rng.choice(['values', 'deltas', 'both', 'stat', 'frame'])}")
             if rng.random() < 0.55:
-                s = rng.choice([None] + list(range(0, 11)))
-                e = rng.choice([None] + list(range(0, 11)))
+                s = rng.choice([None, None] + list(range(0, 11)))
+                e = rng.choice([None, None] + list(range(0, 11)))
+                if rng.random() < 0.12:
+                    s, e = None, None       # a constant over the whole line
                 if rng.random() < 0.15 and b.pts:
                     e = s
                 v = rng.choice([1, 1, -1, 2, Fraction(1, 2), -3])
@@ -135,6 +152,17 @@ def gen_c03(rng, n):
             r3 = b.reg()
             b.add(f"bin {r3} {rng.choice(['add', 'sub', 'mul', 'le', 'and'])} {r} {r2}")
             r = r3
+        if rng.random() < 0.35:
+            # query, then mutate in place, then look at every view again
+            b.add(f"touch {r} {rng.choice(['values', 'both', 'frame', 'stat', 'deltas'])}")
+            u = rng.random()
+            if u < 0.4:
+                b.add(f"layer {r} none none {rng.choice([1, -2, 3])}" + rng.choice(["", " ;; kw=1", " ;; none=inf"]))
+            else:
+                s0 = rng.choice([None, 1, 3, 5])
+                e0 = rng.choice([None, 2, 6, 8])
+                b.note_points([s0, e0])
+                b.add(layer_stmt(rng, r, s0, e0, rng.choice([1, -1, 2])))
         crit = b.critical()
         xs = crit + rng.sample(crit, min(3, len(crit)))   # unsorted with repeats
         rng.shuffle(xs)
@@ -146,6 +174,8 @@ def gen_c03(rng, n):
               (" call=1" if rng.random() < 0.4 else ""), focus=True)
         b.add(f"closed {r}", focus=True)
         b.add(f"nsteps {r}", focus=True)
+        b.add(f"stepchanges {r}", focus=True)
+        b.add(f"deltaroundtrip {r}", focus=True)
         b.add(f"views {r}", focus=True)
         progs.append(b.program())
     return progs
@@ -199,6 +229,16 @@ def gen_pointwise(rng, n, ops, followups=False, scalar_vals=None):
         b.observe(h)
         if followups:
             add_followups(b, rng, h)
+        alias_probe(b, rng, a if not a.startswith("#") else c, h, p=0.12)
+        if rng.random() < 0.5:
+            # a stale internal form only shows downstream: feed the result to another operation
+            other = a if not a.startswith("#") else c
+            k = b.reg("k")
+            if rng.random() < 0.5:
+                b.add(f"bin {k} {rng.choice(['add', 'sub'])} {h} {other}", focus=True)
+            else:
+                b.add(f"bin {k} {rng.choice(['add', 'sub'])} {other} {h}", focus=True)
+            b.observe(k)
         b.tags.update(op=op, mode=tag)
         progs.append(b.program())
     return progs
@@ -275,6 +315,7 @@ def gen_c06(rng, n):
         else:
             b.add(f"un {h} {kind} {a}", focus=True)
         b.observe(h)
+        alias_probe(b, rng, a, h, p=0.3)
         b.tags.update(kind=kind)
         progs.append(b.program())
     return progs
@@ -301,6 +342,7 @@ def gen_c07(rng, n):
             c = b.emit_any(g, rng)
             b.add(f"fillna {h} {a} {c}", focus=True)
         b.observe(h)
+        alias_probe(b, rng, a, h, p=0.25)
         b.tags.update(kind=kind)
         progs.append(b.program())
     return progs
@@ -600,11 +642,42 @@ def gen_c11(rng, n):
 
 
 # ----------------------------------------------------------------------------- C12 minimality / identical / identities
-IDENTITIES = ["comm", "assoc", "distrib", "demorgan", "selfsub", "dblinvert", "maskwhere", "addzero", "mulone"]
+IDENTITIES = ["comm", "assoc", "distrib", "demorgan", "selfsub", "dblinvert", "maskwhere", "addzero", "mulone",
+              "scalarcomm", "scalarsub", "scalarsub"]
+
+
+def gen_c12_coincidences(rng, n, funcs=None):
+    """value coincidences that must collapse to fewer steps: (scalar op f), (f op scalar), (f op f) over the
+    bounded universe (f*0, c/f with f = 0 next to an undefined piece, f - f, comparisons that come out constant…)"""
+    progs = []
+    funcs = funcs or SMALL
+    for _ in range(n):
+        b = Builder("int")
+        f = with_closed(rng.choice(funcs), rng.choice("LR"))
+        A = b.emit(f, "fromvalues", rng)
+        if rng.random() < 0.3:
+            b.add(f"touch {A} {rng.choice(['both', 'deltas'])}")
+        h = b.reg("h")
+        op = rng.choice(["div", "div", "div", "mul", "mul", "add", "sub"] + BINOPS_REL[:2] + ["eq", "and", "or"])
+        c0 = "#" + fs(rng.choice([0, 1, -1, 2]))
+        u = rng.random()
+        if u < 0.45:
+            b.add(f"bin {h} {op} {c0} {A}", focus=True)
+        elif u < 0.8:
+            b.add(f"bin {h} {op} {A} {c0}", focus=True)
+        else:
+            b.add(f"bin {h} {op} {A} {A}", focus=True)
+        b.add(f"rawframe {h}", focus=True)
+        b.add(f"nsteps {h}", focus=True)
+        b.add(f"consistent {h}", focus=True)
+        b.add(f"ident {h} {h}", focus=True)
+        b.tags.update(kind="coincidence", op=op)
+        progs.append(b.program())
+    return progs
 
 
 def gen_c12(rng, n):
-    progs = []
+    progs = gen_c12_coincidences(rng, n // 2)
     for _ in range(n):
         b = Builder(pick_domain(rng))
         cl = rng.choice("LR")
@@ -643,8 +716,13 @@ def gen_c12(rng, n):
             t = rng.random()
             if t < 0.5:
                 op = rng.choice(BINOPS_ARITH + BINOPS_REL + BINOPS_LOGIC)
-                y = B if rng.random() < 0.7 else scalar_token(rng)
-                b.add(f"bin {h} {op} {A} {y}", focus=True)
+                u = rng.random()
+                if u < 0.6:
+                    b.add(f"bin {h} {op} {A} {B}", focus=True)
+                elif u < 0.8:
+                    b.add(f"bin {h} {op} {A} {scalar_token(rng)}", focus=True)
+                else:
+                    b.add(f"bin {h} {op} {scalar_token(rng)} {A}", focus=True)
             elif t < 0.6:
                 b.add(f"un {h} {rng.choice(UNOPS)} {A}", focus=True)
             elif t < 0.7:
@@ -660,6 +738,7 @@ def gen_c12(rng, n):
                 b.add(f"layer {h} {fs(s)} {fs(e)} {rng.choice([1, -1, 2])}", focus=True)
                 b.add(f"layer {h} {fs(s)} {fs(e)} {rng.choice([1, -1, -2])}", focus=True)
             b.add(f"rawframe {h}", focus=True)
+            b.add(f"consistent {h}", focus=True)
             b.add(f"nsteps {h}", focus=True)
             b.add(f"bool {h}", focus=True)
             b.add(f"ident {h} {h}", focus=True)
@@ -714,6 +793,25 @@ def gen_c12(rng, n):
                 b.add(f"mask {x} {A} {B}")
                 b.add(f"un {t1} invert {B}")
                 b.add(f"where {y} {A} {t1}")
+            elif idn == "scalarcomm":
+                op = rng.choice(["add", "mul", "and", "or", "xor", "eq", "ne"])
+                c0 = scalar_token(rng, allow_nan=False)
+                b.add(f"touch {A} {rng.choice(['both', 'values', 'deltas'])}")
+                b.add(f"bin {x} {op} {c0} {A}")
+                b.add(f"bin {y} {op} {A} {c0}")
+            elif idn == "scalarsub":
+                # c - f  =  (-f) + c, whatever has been read from f before
+                c0 = scalar_token(rng, allow_nan=False)
+                b.add(f"touch {A} {rng.choice(['both', 'both', 'values', 'deltas'])}")
+                b.add(f"bin {x} sub {c0} {A}")
+                b.add(f"un {t1} neg {A}")
+                b.add(f"bin {y} add {t1} {c0}")
+                # and the result is a first-class operand: (c - f) + f = c on f's domain
+                z, w = b.reg("z"), b.reg("w")
+                b.add(f"bin {z} add {x} {A}")
+                b.add(f"bin {w} add {y} {A}")
+                b.add(f"ident {z} {w}", focus=True)
+                b.add(f"rawframe {z}", focus=True)
             elif idn == "addzero":
                 b.add(f"bin {x} add {A} #0")
                 b.add(f"copy {y} {A}")
@@ -841,6 +939,13 @@ def gen_c14(rng, n):
                 b.add(f"q {r} {rng.choice(QUERIES)}", focus=True)
             elif t < 0.85:
                 s, e = sorted(rng.sample(pts, 2))
+                u = rng.random()
+                if u < 0.15:
+                    s, e = "none", "none"
+                elif u < 0.25:
+                    s = "none"
+                elif u < 0.35:
+                    e = "none"
                 v = rng.choice([1, -1, 2])
                 vec = rng.random() < 0.4
                 if vec:
@@ -999,6 +1104,9 @@ def gen_c16(rng, n):
             b.n = 100  # keep tree register names identical across variants
             res = gen_tree(b, trng, leaves, 3)
             b.add(f"frame {res}", focus=True)
+            b.add(f"consistent {res}", focus=True)
+            b.add(f"stepchanges {res}", focus=True)
+            b.add(f"deltaroundtrip {res}", focus=True)
             xs = " ".join(fs(x) for x in b.critical(range(0, 11)))
             b.add(f"limit {res} left {xs}", focus=True)
             b.add(f"limit {res} right {xs}", focus=True)
